@@ -8,10 +8,12 @@ RocksDB writes), a crash after any write (`crashDisks`), and `RocksStore::open_w
 `smOf G o` = the state machine obtained by applying the entries of `G` up to position `o` to a fresh
 store (`applyEntriesT SM.init (G.filter (index ≤ o))`) — the specification.
 
-Histories: appends, applies, snapshot builds/installs, purges, conflicting-suffix deletions, votes,
+Histories: appends, applies, snapshot builds (capture and persist as two steps, with other calls in
+between — openraft persists a snapshot in a spawned task), installs, purges, conflicting-suffix deletions, votes,
 under openraft's calling discipline `OpsOk` (entries are appended/deleted only above the applied
 position, applied entries are the committed ones, installed snapshots were built from a prefix of
-`G`, the log is purged only up to the stored snapshot).
+`G` and are not installed while an own build is in flight, the log is purged only up to the stored
+snapshot).
 -/
 namespace Varpulis.Props.C36
 open Varpulis.RaftSM Varpulis.RaftStore
@@ -63,17 +65,19 @@ theorem disk_ops_are_logstore_ops (nd : Node) :
     (∀ id, (step nd (.deleteConflict id)).disk = { nd.disk with ls := nd.disk.ls.deleteConflictSince id }) :=
   ⟨disk_saveVote nd, disk_append nd, disk_purge nd, disk_deleteConflict nd⟩
 
-/-- the premises are satisfiable by a history with compaction: append three committed entries, apply
-them, snapshot, purge everything, append and apply a fourth — and the recovered state after the
-last write contains the worker registered before the purge -/
+/-- the premises are satisfiable by a history with compaction and a snapshot build that overlaps an
+apply: append two committed entries, apply the first, capture a snapshot, apply the second while the
+build is in flight, persist the snapshot, purge up to it, append and apply a third entry — the
+recovered state after the last write contains the worker registered before the purge -/
 example :
     let e1 : Entry := ⟨⟨1, 1, 1⟩, .normal (.registerWorker "w" "a" "k" 1 0 1)⟩
     let e2 : Entry := ⟨⟨1, 1, 2⟩, .membership "1.2"⟩
     let e3 : Entry := ⟨⟨1, 1, 3⟩, .normal (.groupDeployed "g" "1")⟩
     let G := [e1, e2, e3]
-    let ops := [Op.append [e1, e2], .applyTo 2, .buildSnapshot, .purge ⟨1, 1, 2⟩, .append [e3], .applyTo 3]
+    let ops := [Op.append [e1, e2], .applyTo 1, .beginSnapshot, .applyTo 2, .finishSnapshot,
+      .purge ⟨1, 1, 1⟩, .append [e3], .applyTo 3]
     (reopen (run {} ops).disk) = .ok { mem := smOf G (some 3), disk := (run {} ops).disk } ∧
-    (smOf G (some 3)).state.workers.length = 1 ∧ (run {} ops).disk.ls.log.length = 1 := by
+    (smOf G (some 3)).state.workers.length = 1 ∧ (run {} ops).disk.ls.log.length = 2 := by
   decide
 
 /-- … and that history satisfies the premises of `recover_exact` (sorted committed log, calling discipline) -/
@@ -82,10 +86,12 @@ example :
     let e2 : Entry := ⟨⟨1, 1, 2⟩, .membership "1.2"⟩
     let e3 : Entry := ⟨⟨1, 1, 3⟩, .normal (.groupDeployed "g" "1")⟩
     Sorted [e1, e2, e3] ∧
-    OpsOk [e1, e2, e3] {} [Op.append [e1, e2], .applyTo 2, .buildSnapshot, .purge ⟨1, 1, 2⟩, .append [e3], .applyTo 3] := by
+    OpsOk [e1, e2, e3] {} [Op.append [e1, e2], .applyTo 1, .beginSnapshot, .applyTo 2, .finishSnapshot,
+      .purge ⟨1, 1, 1⟩, .append [e3], .applyTo 3] := by
   intro e1 e2 e3
-  refine ⟨by simp [Sorted, e1, e2, e3], ?_, ?_, trivial, ?_, ?_, ?_, trivial⟩
+  refine ⟨by simp [Sorted, e1, e2, e3], ?_, ?_, trivial, ?_, trivial, ?_, ?_, ?_, trivial⟩
   · intro e _; rfl
+  · show toApply _ 1 = _; decide
   · show toApply _ 2 = _; decide
   · exact ⟨_, rfl, by decide⟩
   · intro e he
